@@ -43,8 +43,12 @@ def main():
         result["demo_without_change"] = "pass" if rc0 == 0 else "FAIL"
         rc, out = sh("git apply %s" % os.path.join(src, "patch.diff"), wt)
         if rc != 0:
-            result["apply"] = "failed: " + out[-500:]
-            raise SystemExit
+            # the tree has moved on (a fix: commit touched the same lines): try a 3-way merge before giving up
+            rc, out = sh("git apply --3way %s" % os.path.join(src, "patch.diff"), wt)
+            if rc != 0:
+                result["apply"] = "failed: " + out[-500:]
+                print("APPLY FAILED for %s: rebase seeded/%s/patch.diff by hand" % (sid, sid))
+                raise SystemExit(3)
         rcb, outb = sh(GO + " build ./...", wt)
         result["build_with_change"] = "ok" if rcb == 0 else "FAILED " + outb[-300:]
         rc1, out1 = sh(run, wt)
